@@ -18,6 +18,7 @@ ENGINES = [
     {"name": "range", "path": "harness/eng_range.go", "serves_properties": ["C11"], "kind_free_text": "differential driver of PayloadRange.Resolve and of range reads through FSTree/shard/engine against Gen/Arith.lean + Model/Range.lean"},
     {"name": "grace", "path": "harness/eng_grace.go", "serves_properties": ["C47"], "kind_free_text": "runs the real shard new-epoch handler and engine start-up cleanup against Model/Grace.lean over the property's full table"},
     {"name": "arith", "path": "harness/eng_arith.go", "serves_properties": ["C39"], "kind_free_text": "differential driver of pkg/util/precision against Model/Precision.lean with a math/big oracle"},
+    {"name": "timers", "path": "harness/eng_timers.go", "serves_properties": ["C40"], "kind_free_text": "drives real timers.EpochTimers with counting handlers against Model/Timers.lean"},
     {"name": "ec", "path": "harness/eng_ec.go", "serves_properties": ["C21", "C22"], "kind_free_text": "differential driver of internal/ec against Model/EC.lean"},
 ]
 
@@ -106,3 +107,17 @@ prop("C39",
      rule="precisions 0..18 x (boundary amounts 10^k+-1, 2^63/10^k+-1, 2^53/10^k, 2^31.., plus seeded random magnitudes) x both directions; "
           "non-trivial = product fits int64, n > 1, p != 8; distinct by op",
      assumptions=["amounts are non-negative (the converter is only used for deposits/withdrawals)"])
+
+prop("C40",
+     theorems=["NeoFS.Timers.nothing_after_done", "NeoFS.Timers.epoch_fires_once", "NeoFS.Timers.epoch_fires_once_after_reset",
+               "NeoFS.Timers.delta_fires_once_aux", "NeoFS.Timers.delta_fires_once"],
+     engines=[dict(name="timers", quick=1, thorough=1)],
+     claim="Lean proves, for every prior timer state, every reset and every (possibly non-monotonic) sequence of block times until the next reset: the "
+           "new-epoch handlers fire exactly at the first block time reaching lastTick+dur and never again; every sub-epoch handler with mul<=div fires "
+           "exactly at the first block time reaching lastTick+dur*mul/div and never again (uint64 overflow of lastTick+dur / dur*mul excluded by explicit "
+           "hypotheses; the mul>div case, which the early return suppresses, is stated as the hypothesis and executed on the real code). Tied to "
+           "pkg/timers.EpochTimers by all short histories plus seeded long ones.",
+     note="Trusted: Lean kernel; hand model Model/Timers.lean (tied by correspondence); the mutex makes UpdateTime/Reset atomic steps, so a history is a "
+          "sequence of them.",
+     rule="all histories of length <= 3 (quick) / <= 5 (thorough) over 6 resets x 9 block times with 5 fractions (1/2, 1/1, 3/2, 0/1, 2/3), plus seeded "
+          "histories of 4..17 events incl. values near 2^64; non-trivial = more than 3 events; distinct by history")
